@@ -803,6 +803,7 @@ def gen_c27_client(r, cid, thorough, fault=None, fixed=None):
             c.c("tick")
         c.c("lsnlisten 0")
     c.c("drain 40")
+    m["risky"] = fault.startswith("refuse") and bool(acts or mids)
     m.update(nreq=nreq, nextra=nextra, post=post, retries=retries, timeout=timeout, style=style, fault=fdesc, L=L,
              acts=[list(a) for a in acts], mids=[list(x) for x in mids], autofree=autofree, short=list(short) if short else None,
              opts=opts)
@@ -985,7 +986,9 @@ def run_batch(res, prop, cases, batch_no, timeout=600, one_per_job=False):
     groups = [[] for _ in range(len(cases) if one_per_job else NJOBS)]
     for i, cs_ in enumerate(cases):
         groups[i % len(groups)].append(cs_)
-    groups = [g for g in groups if g]
+    # cases known to be able to abort the process (listed sanitizer findings) go last in their shard,
+    # so that a crash costs little re-running
+    groups = [sorted(g, key=lambda c_: bool(c_.meta.get("risky"))) for g in groups if g]
     traces = {}
     rnd = 0
     while groups and rnd < 40:
@@ -997,7 +1000,11 @@ def run_batch(res, prop, cases, batch_no, timeout=600, one_per_job=False):
                 f.write(text)
             jobs.append(dict(args=["--arg", path], tag="%s-b%d-r%d-%d" % (prop, batch_no, rnd, j),
                              replay=dict(script=text[:4000000], whole_job=True), path=path, group=g))
+        import time as _t
+        _t0 = _t.time()
         outs = vlib.run_jobs(res, "asan", "h_httpmsg", jobs, timeout=timeout)
+        if os.environ.get("VERIF_DEBUG"):
+            vlib.log("run_batch %s b%d round %d: %d jobs %.1fs (slowest %.1fs)" % (prop, batch_no, rnd, len(jobs), _t.time() - _t0, max(o["wall"] for o in outs)))
         nxt = []
         for o in outs:
             tr = read_trace(o["out"])
